@@ -115,141 +115,6 @@ Qed.
 End Tbl.
 
 
-(* ---------- which errors the frame handlers can return ---------- *)
-Section Errs.
-Variable hstate : Type.
-Variable dec_field : hstate -> N -> bytes -> dec_res hstate.
-Variable cfg : config.
-
-(* the codes of the GOAWAYs the stream loop sends on its own account *)
-Definition sl_codes : list N :=
-  [c_ProtocolError; c_FlowControlError; c_StreamClosedError; c_CompressionError; c_EnhanceYourCalm; c_InternalError].
-
-Lemma sl_codes_nonzero code : In code sl_codes -> (code =? c_NoError) = false.
-Proof. cbn. intros [<-|[<-|[<-|[<-|[<-|[<-|[]]]]]]]; reflexivity. Qed.
-
-(* a GOAWAY error carries one of these codes (never NO_ERROR); a panic comes from the HPACK decoder only *)
-Definition good_err (e : h2err) : Prop :=
-  match e with
-  | EGoAway code => In code sl_codes
-  | EReset _ => True
-  | EPanic => exists d n b, dec_field d n b = DPanic hstate
-  end.
-Definition good_oerr (e : option h2err) : Prop := match e with Some e => good_err e | None => True end.
-(* the errors of the discarding decoder: never a stream error *)
-Definition disc_err (e : h2err) : Prop :=
-  match e with
-  | EGoAway code => In code sl_codes
-  | EReset _ => False
-  | EPanic => exists d n b, dec_field d n b = DPanic hstate
-  end.
-Definition disc_oerr (e : option h2err) : Prop := match e with Some e => disc_err e | None => True end.
-
-Lemma disc_good e : disc_oerr e -> good_oerr e.
-Proof. destruct e as [[| |]|]; cbn; tauto. Qed.
-
-Lemma good_goaway code : existsb (N.eqb code) sl_codes = true -> good_err (EGoAway code).
-Proof. intro H. apply existsb_exists in H. destruct H as (x & I & E). cbn [good_err]. replace code with x by lia. exact I. Qed.
-Lemma disc_goaway code : existsb (N.eqb code) sl_codes = true -> disc_err (EGoAway code).
-Proof. exact (good_goaway code). Qed.
-
-Lemma header_field_err h k v e : header_field cfg h k v = inl e -> good_err e.
-Proof.
-  unfold header_field.
-  repeat match goal with
-         | |- (if ?b then _ else _) = _ -> _ => destruct b
-         | |- match ?x with Some _ => _ | None => _ end = _ -> _ => destruct x
-         | |- match (if ?b then _ else _) with inl _ => _ | inr _ => _ end = _ -> _ => destruct b
-         | |- match match ?x with Some _ => _ | None => _ end with inl _ => _ | inr _ => _ end = _ -> _ => destruct x
-         | |- (let (_, _) := ?p in _) = _ -> _ => destruct p
-         end;
-  intro H; inversion H; subst; try exact I; apply good_goaway; reflexivity.
-Qed.
-
-Lemma header_loop_err fuel : forall eh d h b d' h' e rest,
-  header_loop dec_field fuel cfg eh d h b = (d', h', Some e, rest) -> good_err e.
-Proof.
-  induction fuel as [|fuel IH]; intros eh d h b d' h' e rest; cbn [header_loop].
-  - intro H; inversion H; subst. apply good_goaway; reflexivity.
-  - destruct b as [|b0 b]; [discriminate|].
-    destruct (dec_field d (hd_blockFields h) (b0 :: b)) as [k v rest0 st|st|st|st|] eqn:D.
-    + destruct (header_field cfg h k v) eqn:HF.
-      * intro H; inversion H; subst. eapply header_field_err; eassumption.
-      * apply IH.
-    + discriminate.
-    + destruct (negb eh); [discriminate|]. intro H; inversion H; subst. apply good_goaway; reflexivity.
-    + intro H; inversion H; subst. apply good_goaway; reflexivity.
-    + intro H; inversion H; subst. cbn. eauto.
-Qed.
-
-Lemma discard_loop_err fuel : forall eh d n b d' n' carry e,
-  discard_loop dec_field fuel eh d n b = (d', n', carry, Some e) -> disc_err e.
-Proof.
-  induction fuel as [|fuel IH]; intros eh d n b d' n' carry e; cbn [discard_loop].
-  - intro H; inversion H; subst. apply disc_goaway; reflexivity.
-  - destruct b as [|b0 b]; [discriminate|].
-    destruct (dec_field d n (b0 :: b)) as [k v rest0 st|st|st|st|] eqn:D.
-    + apply IH.
-    + discriminate.
-    + destruct (negb eh); [discriminate|]. intro H; inversion H; subst. apply disc_goaway; reflexivity.
-    + intro H; inversion H; subst. apply disc_goaway; reflexivity.
-    + intro H; inversion H; subst. cbn. eauto.
-Qed.
-
-Lemma discard_fragment_err (c : sconn hstate) id frag eh : disc_oerr (snd (discard_fragment dec_field cfg c id frag eh)).
-Proof.
-  unfold discard_fragment.
-  destruct (discard_loop dec_field _ eh (sc_dec c) (sc_discardFields c) _) as [[[d' fields] carry] e] eqn:DL.
-  destruct e as [e|]; cbn [snd].
-  - eapply discard_loop_err; eassumption.
-  - destruct eh; cbn [snd]; [exact I|]. destruct (_ && _)%bool; cbn [snd]; [apply disc_goaway; reflexivity | exact I].
-Qed.
-
-Lemma discard_header_block_err (c : sconn hstate) fr : disc_oerr (snd (discard_header_block dec_field cfg c fr)).
-Proof. unfold discard_header_block. apply discard_fragment_err. Qed.
-
-Lemma handle_header_frame_err (c : sconn hstate) s fr : good_oerr (snd (handle_header_frame dec_field cfg c s fr)).
-Proof.
-  unfold handle_header_frame.
-  destruct (_ && _)%bool; [apply good_goaway; reflexivity|]. destruct (_ && _)%bool; [apply good_goaway; reflexivity|].
-  destruct (header_loop dec_field _ cfg _ (sc_dec c) _ _) as [[[d' h2] e] rest] eqn:HL.
-  destruct e as [e|].
-  - pose proof (header_loop_err _ _ _ _ _ _ _ _ _ HL) as G.
-    destruct e as [code|code|]; cbn [snd]; try exact G.
-    match goal with |- context [discard_fragment ?a ?b ?c0 ?d ?e ?f] =>
-      pose proof (disc_good _ (discard_fragment_err c0 d e f)) as L; destruct (discard_fragment a b c0 d e f) as [c3 [de|]] end;
-    cbn [snd] in *; [exact L | exact I].
-  - destruct (_ && _)%bool; cbn [snd]; [apply good_goaway; reflexivity | exact I].
-Qed.
-
-Lemma verify_state_err s fr e : verify_state s fr = Some e -> good_err e.
-Proof.
-  unfold verify_state. destruct (st_state s); try discriminate;
-  repeat match goal with |- (if ?b then _ else _) = _ -> _ => destruct b end;
-  intro H; inversion H; subst; apply good_goaway; reflexivity.
-Qed.
-
-Lemma handle_frame_err (c : sconn hstate) s fr : good_oerr (snd (handle_frame dec_field cfg c s fr)).
-Proof.
-  unfold handle_frame. destruct (verify_state s fr) eqn:V; [eapply verify_state_err; eassumption|].
-  pose proof (handle_header_frame_err c s fr) as LH.
-  match goal with |- context [match sf_kind fr with KHeaders => ?X | _ => _ end] => set (hb := X) end.
-  assert (HH : good_oerr (snd hb)).
-  { subst hb. destruct (_ && _)%bool; [apply good_goaway; reflexivity|].
-    destruct (handle_header_frame dec_field cfg c s fr) as [[c1 s1] e]. cbn [snd] in LH.
-    destruct e; [exact LH|]. destruct (flag_has (sf_flags fr) FL_EH); [|exact I].
-    cbv zeta. destruct (negb _); [apply good_goaway; reflexivity|].
-    unfold validate_request_pseudo_headers.
-    destruct (_ || _)%bool; [exact I|]. destruct (st_path _); exact I. }
-  clearbody hb.
-  destruct (sf_kind fr); try exact HH; try (apply good_goaway; reflexivity);
-  repeat match goal with |- context [if ?b then _ else _] => destruct b end; cbn [snd good_oerr good_err];
-  try exact I; apply good_goaway; reflexivity.
-Qed.
-
-End Errs.
-Arguments good_err {hstate}. Arguments good_oerr {hstate}. Arguments disc_err {hstate}. Arguments disc_oerr {hstate}.
-Ltac in_codes := cbn [sl_codes In]; tauto.
 
 Section Moves.
 Variable hstate : Type.
@@ -259,6 +124,7 @@ Variable enc_set_max : hstate -> N -> hstate.
 Variable cfg : config.
 Variable Q : stream -> Prop.
 Notation sconn := (sconn hstate).
+Notation lite := (lite cfg).
 Implicit Types c : sconn.
 
 (* what a stream is like when its request is handed to a handler *)
@@ -267,7 +133,7 @@ Definition dispatchable (x : stream) : Prop :=
   (st_hasCL x = true -> st_recvBody x = st_contentLength x).
 
 (* One move. The label is the stream whose handler has just been taken back (sl_done), if any.
-   Every move starts in a state where the stream loop is running. *)
+   Every move but the last kind (mv_post) starts in a state where the stream loop is running. *)
 Inductive mv : option N -> sconn -> sconn -> Prop :=
 | mv_lite c c' : sc_sl_done c = false -> lite c c' -> mv None c c'
 | mv_goaway c sid code : sc_sl_done c = false -> In code sl_codes -> mv None c (write_goaway c sid code)
@@ -284,7 +150,7 @@ Inductive mv : option N -> sconn -> sconn -> Prop :=
     st_responded s = false -> Q s ->
     mv None c (upd_open (upd_strms (upd_lastID (upd_highestID c sid) sid) (sc_strms c ++ [s])) (sc_open c + 1))
 | mv_close c old x : sc_sl_done c = false -> strms_search (sc_strms c) (st_id x) = Some old -> sloc old x ->
-    mv None c (close_stream c x)
+    (Q old -> Q x) -> mv None c (close_stream c x)
 | mv_done_gone c sid s rest : sc_sl_done c = false -> take_stream (sc_gone c) sid = Some (s, rest) ->
     mv (Some sid) c (release_stream (upd_gone c rest) (set_flags s (st_responded s) false true))
 | mv_returned c c1 old x : sc_sl_done c = false -> lite c c1 ->       (* c1: the response has been queued *)
@@ -297,7 +163,9 @@ Inductive mv : option N -> sconn -> sconn -> Prop :=
     (extra = [] \/ exists s, extra = [s] /\ st_orig s <> KHeaders /\ st_handlerRunning s = false /\ st_responded s = false) ->
     mv None c (fst (brk (upd_strms c l)))
 | mv_panic c : sc_sl_done c = false -> (exists d n b, dec_field d n b = DPanic hstate) ->
-    mv None c (note c (OPanic 1 0)).
+    mv None c (note c (OPanic 1 0))
+(* once the loop has ended: what an error path left behind in the untracked components *)
+| mv_post c c' : sc_sl_done c = true -> quiet_core c c' -> mv None c c'.
 
 Definition olist (o : option N) : list N := match o with Some x => [x] | None => [] end.
 
@@ -335,15 +203,32 @@ Lemma mvs0_lite a b : sc_sl_done a = false -> lite a b -> mvs [] a b.
 Proof. intros. apply mvs0_one. constructor; assumption. Qed.
 
 (* ---------- closure of Q under the stream transformers ---------- *)
-Hypothesis HQ_new : forall id w k t, Q (set_orig_started (new_stream id w) k t).
-Hypothesis HQ_closed : forall s, Q s -> Q (set_state s SClosed).
-Hypothesis HQ_handle_state : forall fr s, Q s -> Q (handle_state fr s).
-Hypothesis HQ_weReset : forall s, Q s -> Q (set_weReset s).
-Hypothesis HQ_flags : forall s a b d, Q s -> Q (set_flags s a b d).
-Hypothesis HQ_window : forall s w, Q s -> Q (set_window s w).
-Hypothesis HQ_snd : forall s n, Q s -> Q (set_snd s n).
-Hypothesis HQ_frame : forall c s fr c' s' e, Q s -> handle_frame dec_field cfg c s fr = (c', s', e) ->
-  (forall code, e <> Some (EGoAway code)) -> Q s'.
+(* Q is kept by everything the stream loop does to a table stream. handle_frame: when it succeeds; when it fails
+   with a stream error the stream is reset and closed at once, and only that is required to satisfy Q *)
+Record Qclosed : Prop := mkQclosed {
+  qc_new : forall id w k t, Q (set_orig_started (new_stream id w) k t);
+  qc_closed : forall s, Q s -> Q (set_state s SClosed);
+  qc_handle_state : forall fr s, Q s -> Q (handle_state fr s);
+  qc_weReset : forall s, Q s -> Q (set_weReset s);
+  qc_flags : forall s a b d, Q s -> Q (set_flags s a b d);
+  qc_window : forall s w, Q s -> Q (set_window s w);
+  qc_snd : forall s n, Q s -> Q (set_snd s n);
+  qc_frame : forall (c : sconn) s fr c' s' e, Q s -> handle_frame dec_field cfg c s fr = (c', s', e) ->
+    match e with
+    | None => Q s'
+    | Some (EReset _) => Q (set_state (set_weReset s') SClosed)
+    | _ => True
+    end
+}.
+Hypothesis HQc : Qclosed.
+Lemma HQ_new : forall id w k t, Q (set_orig_started (new_stream id w) k t). Proof. apply HQc. Qed.
+Lemma HQ_closed : forall s, Q s -> Q (set_state s SClosed). Proof. apply HQc. Qed.
+Lemma HQ_handle_state : forall fr s, Q s -> Q (handle_state fr s). Proof. apply HQc. Qed.
+Lemma HQ_weReset : forall s, Q s -> Q (set_weReset s). Proof. apply HQc. Qed.
+Lemma HQ_flags : forall s a b d, Q s -> Q (set_flags s a b d). Proof. apply HQc. Qed.
+Lemma HQ_window : forall s w, Q s -> Q (set_window s w). Proof. apply HQc. Qed.
+Lemma HQ_snd : forall s n, Q s -> Q (set_snd s n). Proof. apply HQc. Qed.
+Local Hint Resolve HQ_new HQ_closed HQ_handle_state HQ_weReset HQ_flags HQ_window HQ_snd : core.
 
 (* ---------- working copies ---------- *)
 (* s is a working copy of a table stream: the table holds `old` under s's id *)
@@ -351,7 +236,7 @@ Definition work (c : sconn) (s : stream) : Prop :=
   exists old, strms_search (sc_strms c) (st_id s) = Some old /\ sloc old s /\ (Q old -> Q s).
 
 Lemma work_lite c c' s : lite c c' -> work c s -> work c' s.
-Proof. intros L (old & H1 & H2 & H3). exists old. rewrite (lite_strms _ _ _ L). auto. Qed.
+Proof. intros L (old & H1 & H2 & H3). exists old. rewrite (lite_strms _ _ _ _ L). auto. Qed.
 
 Lemma work_strms c c' s : sc_strms c' = sc_strms c -> work c s -> work c' s.
 Proof. intros E (old & H1 & H2 & H3). exists old. rewrite E. auto. Qed.
@@ -382,7 +267,7 @@ Lemma mvs_put_close c s : sc_sl_done c = false -> work c s ->
 Proof.
   intros Hd W. destruct (sstate_eqb (st_state s) SClosed); [|apply mvs_put; assumption].
   eapply mvs0_trans; [apply mvs_put; eassumption|]. apply mvs0_one.
-  apply mv_close with (old := s) (x := s); [rewrite sc_sl_done_put; assumption | apply search_put_work; assumption | apply sloc_refl].
+  apply mv_close with (old := s) (x := s); [rewrite sc_sl_done_put; assumption | apply search_put_work; assumption | apply sloc_refl | auto].
 Qed.
 
 (* ---------- close_all, flush_streams ---------- *)
@@ -391,7 +276,7 @@ Proof.
   induction ids as [|id t IH]; intros c Hd; cbn [close_all]; [constructor|].
   destruct (strms_search (sc_strms c) id) as [s|] eqn:E; [|auto].
   eapply mvs0_trans; [|apply IH; rewrite sc_sl_done_close_stream; assumption].
-  apply mvs0_one. apply mv_close with (old := s) (x := set_state s SClosed); [assumption | | apply sloc_set_state].
+  apply mvs0_one. apply mv_close with (old := s) (x := set_state s SClosed); [assumption | | apply sloc_set_state | apply HQ_closed].
   cbn [set_state st_id]. destruct (strms_search_In _ _ _ E) as [_ <-]. assumption.
 Qed.
 
@@ -413,10 +298,10 @@ Proof.
   induction ids as [|id t IH]; intros c done Hd; cbn [flush_loop]; [split; [constructor | assumption]|].
   destruct (strms_search (sc_strms c) id) as [s|] eqn:E; [|auto].
   destruct (_ && _)%bool; [|auto].
-  pose proof (lite_send_data _ c s Hd) as L. pose proof (sloc_send_data c s) as S.
+  pose proof (lite_send_data _ cfg c s Hd) as L. pose proof (sloc_send_data c s) as S.
   pose proof (Q_send_data c s) as HQ.
   destruct (send_data c s) as [[c1 s1] fin]. cbn [fst snd] in *.
-  assert (Hd1 : sc_sl_done c1 = false) by (rewrite (lite_sl_done _ _ _ L); assumption).
+  assert (Hd1 : sc_sl_done c1 = false) by (rewrite (lite_sl_done _ _ _ _ L); assumption).
   assert (W : work c1 s1).
   { eapply work_lite; [eassumption|]. eapply work_upd; [eassumption | assumption|]. apply work_found.
     destruct (strms_search_In _ _ _ E) as [_ ->]. assumption. }
@@ -461,7 +346,7 @@ Proof.
     by (rewrite sc_sl_done_write_reset; assumption).
   destruct (IH _ sid Hd2) as (M & D & K). subst x. repeat split; [|assumption|].
   - eapply mvs0_trans; [|eapply mvs0_trans; [|exact M]].
-    + apply mvs0_one. apply mv_close with (old := n) (x := set_state (set_weReset n) SClosed); [assumption | | ].
+    + apply mvs0_one. apply mv_close with (old := n) (x := set_state (set_weReset n) SClosed); [assumption | | | auto].
       * rewrite E. cbn [set_state st_id set_weReset strms_search]. rewrite N.eqb_refl. reflexivity.
       * apply sloc_reset_closed.
     + apply mvs0_lite; [assumption | apply lite_write_reset; assumption].
@@ -479,6 +364,7 @@ Proof.
   - rewrite sc_sl_done_write_reset; assumption.
   - rewrite sc_strms_write_reset, E. cbn [set_state st_id set_weReset strms_search]. rewrite N.eqb_refl. reflexivity.
   - apply sloc_reset_closed.
+  - auto.
 Qed.
 
 Theorem mvs_sl_timer c : sc_sl_done c = false -> mvs [] c (fst (sl_timer cfg c)).
@@ -538,10 +424,10 @@ Proof.
       apply mvs_brk_if. rewrite sc_sl_done_put, sc_sl_done_note. assumption.
   - destruct (st_responded s1 && negb (st_handlerRunning s1) && has_more_to_send s1)%bool.
     + (* more of the response can go *)
-      pose proof (lite_send_data _ c s1 Hd) as L. pose proof (sloc_send_data c s1) as S.
+      pose proof (lite_send_data _ cfg c s1 Hd) as L. pose proof (sloc_send_data c s1) as S.
       pose proof (Q_send_data c s1) as HQ.
       destruct (send_data c s1) as [[c1 s2] fin]. cbn [fst snd] in *.
-      assert (Hd1 : sc_sl_done c1 = false) by (rewrite (lite_sl_done _ _ _ L); assumption).
+      assert (Hd1 : sc_sl_done c1 = false) by (rewrite (lite_sl_done _ _ _ _ L); assumption).
       assert (W2 : work c1 (if fin then set_state s2 SClosed else s2)).
       { eapply work_lite; [exact L|]. eapply work_upd; [| |exact W1].
         - destruct fin; eauto using sloc_trans, sloc_set_state.
@@ -554,19 +440,38 @@ Proof.
 Qed.
 
 (* ---------- sl_frame ---------- *)
-Lemma mvs_discard_or_break c (r : sconn * option h2err) :
-  sc_sl_done c = false -> lite c (fst r) -> disc_oerr dec_field (snd r) -> mvs [] c (fst (discard_or_break r)).
+(* how an error path that ends the loop is replayed: the GOAWAY (or the panic note) and the break on the state
+   before the handler ran, then what the handler left behind in the untracked components *)
+Lemma quiet_goaway_brk c c1 sid code : quiet_core c c1 ->
+  quiet_core (fst (brk (write_goaway c sid code))) (fst (brk (write_goaway c1 sid code))).
 Proof.
-  intros Hd L G. destruct r as [c1 [e|]]; cbn [fst snd] in *.
-  - assert (Hd1 : sc_sl_done c1 = false) by (rewrite (lite_sl_done _ _ _ L); assumption).
-    eapply mvs0_trans; [apply mvs0_lite; eassumption|].
-    destruct e as [code|code|]; cbn [discard_or_break write_error fst].
-    + eapply mvs0_trans; [apply mvs0_one, mv_goaway; [assumption | exact G]|].
-      apply mvs0_one, mv_brk. rewrite sc_sl_done_write_goaway. assumption.
-    + destruct G.
+  intros [SC EO]. unfold same_core in SC. destruct SC as (S1 & S2 & S3 & S4 & S5 & S6 & S7 & S8 & S9 & S10 & S11 & S12 & S13 & S14 & S15).
+  assert (EG : sc_out (write_goaway c1 sid code) = sc_out (write_goaway c sid code)).
+  { rewrite !sc_out_write_goaway, S14, S12, S5, EO. reflexivity. }
+  split; [|unfold brk, note; sc_cbn; congruence].
+  unfold same_core, brk, note. sc_cbn. sc_rw. rewrite ?sc_closing_write_goaway, ?sc_closeRef_write_goaway. rewrite ?S1, ?S2, ?S3, ?S4, ?S5, ?S6, ?S7, ?S8, ?S9, ?S10, ?S11, ?S12, ?S13, ?S14, ?S15. repeat split; reflexivity.
+Qed.
+
+Lemma quiet_note_brk c c1 o : quiet_core c c1 -> quiet_core (fst (brk (note c o))) (fst (brk (note c1 o))).
+Proof.
+  intros [SC EO]. unfold same_core in SC. destruct SC as (S1 & S2 & S3 & S4 & S5 & S6 & S7 & S8 & S9 & S10 & S11 & S12 & S13 & S14 & S15).
+  split; [|unfold brk, note; sc_cbn; congruence].
+  unfold same_core, brk, note. sc_cbn. rewrite ?S1, ?S2, ?S3, ?S4, ?S5, ?S6, ?S7, ?S8, ?S9, ?S10, ?S11, ?S12, ?S13, ?S14, ?S15. repeat split; reflexivity.
+Qed.
+
+Lemma mvs_discard_or_break c (r : sconn * option h2err) :
+  sc_sl_done c = false -> (snd r = None -> lite c (fst r)) -> quiet_core c (fst r) -> disc_oerr dec_field (snd r) ->
+  mvs [] c (fst (discard_or_break r)).
+Proof.
+  intros Hd L QC G. destruct r as [c1 [e|]]; cbn [fst snd] in *.
+  - destruct e as [code|code|]; cbn [discard_or_break write_error fst]; [| destruct G |].
+    + eapply mvs0_trans; [apply mvs0_one, (mv_goaway c 0 code); [assumption | exact G]|].
+      eapply mvs0_trans; [apply mvs0_one, mv_brk; rewrite sc_sl_done_write_goaway; assumption|].
+      apply mvs0_one, mv_post; [reflexivity | apply quiet_goaway_brk; assumption].
     + eapply mvs0_trans; [apply mvs0_one, mv_panic; [assumption | exact G]|].
-      apply mvs0_one, mv_brk. rewrite sc_sl_done_note. assumption.
-  - cbn [discard_or_break cont fst]. apply mvs0_lite; assumption.
+      eapply mvs0_trans; [apply mvs0_one, mv_brk; rewrite sc_sl_done_note; assumption|].
+      apply mvs0_one, mv_post; [reflexivity | apply quiet_note_brk; assumption].
+  - cbn [discard_or_break cont fst]. apply mvs0_lite; auto.
 Qed.
 
 (* the refusal of a stream: RST_STREAM(REFUSED_STREAM), remember the id, decode and drop the block *)
@@ -581,6 +486,7 @@ Proof.
   apply mvs_discard_or_break.
   - rewrite sc_sl_done_mark_closed, sc_sl_done_write_reset. assumption.
   - apply lite_discard_header_block.
+  - apply quiet_discard_header_block.
   - apply discard_header_block_err.
 Qed.
 
@@ -627,51 +533,68 @@ Proof.
   auto using sloc_refl, sloc_set_recv, sloc_set_window.
 Qed.
 
+Lemma quiet_fatal_put c c3 sid code x : quiet_core c c3 ->
+  quiet_core (fst (brk (upd_strms (write_goaway c sid code) (strms_put (sc_strms c) x))))
+             (fst (brk (put (write_goaway c3 sid code) x))).
+Proof.
+  intros [SC EO]. unfold same_core in SC. destruct SC as (S1 & S2 & S3 & S4 & S5 & S6 & S7 & S8 & S9 & S10 & S11 & S12 & S13 & S14 & S15).
+  assert (EG : sc_out (write_goaway c3 sid code) = sc_out (write_goaway c sid code)).
+  { rewrite !sc_out_write_goaway, S14, S12, S5, EO. reflexivity. }
+  split; [|unfold brk, note, put; sc_cbn; congruence].
+  unfold same_core, brk, note, put. sc_cbn. sc_rw. rewrite ?sc_closing_write_goaway, ?sc_closeRef_write_goaway. rewrite ?S1, ?S2, ?S3, ?S4, ?S5, ?S6, ?S7, ?S8, ?S9, ?S10, ?S11, ?S12, ?S13, ?S14, ?S15. repeat split; reflexivity.
+Qed.
+
 Lemma mvs_frame_tail c s fr wc : sc_sl_done c = false -> work c s -> mvs [] c (fst (frame_tail c s fr wc)).
 Proof.
   intros Hd W. unfold frame_tail.
   pose proof (lite_handle_frame _ dec_field cfg c s fr Hd) as L.
+  pose proof (quiet_handle_frame _ dec_field cfg c s fr) as QC.
   pose proof (sloc_handle_frame c s fr) as S.
   pose proof (handle_frame_err _ dec_field cfg c s fr) as G.
-  pose proof (fun e => HQ_frame c s fr (fst (fst (handle_frame dec_field cfg c s fr)))
-                         (snd (fst (handle_frame dec_field cfg c s fr))) e) as HQ.
+  pose proof (fun Qs => qc_frame HQc c s fr (fst (fst (handle_frame dec_field cfg c s fr)))
+                         (snd (fst (handle_frame dec_field cfg c s fr))) (snd (handle_frame dec_field cfg c s fr)) Qs) as HQf.
   destruct (handle_frame dec_field cfg c s fr) as [[c3 s3] e]. cbn [fst snd] in *.
-  assert (Hd3 : sc_sl_done c3 = false) by (rewrite (lite_sl_done _ _ _ L); assumption).
-  eapply mvs0_trans; [apply mvs0_lite; eassumption|].
-  assert (W3 : (forall code, e <> Some (EGoAway code)) -> work c3 s3).
-  { intro NG. eapply work_lite; [exact L|]. eapply work_upd; [exact S | | exact W].
-    intro Qs. apply (HQ e Qs eq_refl NG). }
-  (* the table entry for s3's id, whatever the error *)
-  assert (W3' : exists old, strms_search (sc_strms c3) (st_id s3) = Some old /\ sloc old s3).
-  { destruct W as (old & H1 & H2 & _). exists old. rewrite (lite_strms _ _ _ L). destruct S as (Si & So & Sr & Sp).
-    rewrite Si. split; [assumption|]. eapply sloc_trans; [exact H2 | repeat split; assumption]. }
+  (* the working copy after the frame, when Q is known of it *)
+  assert (W3 : lite c c3 -> forall x, sloc s3 x -> (Q s -> Q x) -> work c3 x).
+  { intros L3 x Sx Qx. eapply work_lite; [exact L3|]. eapply work_upd; [eapply sloc_trans; [exact S | exact Sx] | exact Qx | exact W]. }
   destruct e as [[code|code|]|].
-  - (* connection error *)
+  - (* connection error: GOAWAY, the stream is written back, the loop ends *)
     cbn [write_error]. cbn [good_oerr good_err] in G.
     replace (negb (code =? c_NoError)) with true by (symmetry; apply negb_true_iff, sl_codes_nonzero; exact G).
-    destruct W3' as (old & H1 & H2).
-    eapply mvs0_trans; [apply mvs0_one, (mv_goaway c3 (st_id s3) code); [assumption | exact G]|].
-    apply mvs0_one.
-    assert (E : fst (brk (put (write_goaway c3 (st_id s3) code) (set_state (set_state s3 SClosed) SClosed))) =
-                fst (brk (upd_strms (write_goaway c3 (st_id s3) code)
-                       (strms_put (sc_strms (write_goaway c3 (st_id s3) code)) (set_state (set_state s3 SClosed) SClosed)))))
-      by reflexivity.
-    rewrite E. apply mv_fatal with (extra := []); [rewrite sc_sl_done_write_goaway; assumption | | left; reflexivity].
-    rewrite app_nil_r, sc_strms_write_goaway. eapply put_sloc; [exact H1|].
-    eapply sloc_trans; [exact H2|]. eapply sloc_trans; apply sloc_set_state.
+    assert (Q3 : quiet_core c c3) by (apply QC; intro F; exact F).
+    destruct W as (old & H1 & H2 & _). pose proof S as (Si & _).
+    set (x := set_state (set_state s3 SClosed) SClosed).
+    eapply mvs0_trans; [apply mvs0_one, (mv_goaway c (st_id s3) code); [assumption | exact G]|].
+    eapply mvs0_trans.
+    + apply mvs0_one.
+      apply (mv_fatal (write_goaway c (st_id s3) code) (strms_put (sc_strms c) x) []);
+        [rewrite sc_sl_done_write_goaway; assumption | | left; reflexivity].
+      rewrite app_nil_r, sc_strms_write_goaway. eapply put_sloc; [cbn [x set_state st_id]; rewrite Si; exact H1|].
+      eapply sloc_trans; [exact H2|]. eapply sloc_trans; [exact S|].
+      eapply sloc_trans; apply sloc_set_state.
+    + apply mvs0_one, mv_post; [reflexivity|].
+      apply quiet_fatal_put. exact Q3.
   - (* stream error *)
     cbn [write_error].
+    assert (L3 : lite c c3) by (apply L; exact I).
+    assert (Hd3 : sc_sl_done c3 = false) by (rewrite (lite_sl_done _ _ _ _ L3); assumption).
+    eapply mvs0_trans; [apply mvs0_lite; eassumption|].
     assert (L4 : lite c3 (write_reset c3 (st_id s3) code)) by (apply lite_write_reset; assumption).
     eapply mvs0_trans; [apply mvs0_lite; eassumption|].
     apply mvs_after_frame; [rewrite sc_sl_done_write_reset; assumption|].
-    eapply work_lite; [exact L4|]. eapply work_upd; [| |apply W3; intros; discriminate].
+    eapply work_lite; [exact L4|]. apply (W3 L3).
     + eapply sloc_trans; [apply sloc_reset_closed | apply sloc_set_state].
-    + auto.
+    + intro Qs. apply HQ_closed. exact (HQf Qs eq_refl).
   - (* the decoder panicked *)
     cbn [write_error].
+    assert (Q3 : quiet_core c c3) by (apply QC; intro F; exact F).
     eapply mvs0_trans; [apply mvs0_one, mv_panic; [assumption | exact G]|].
-    apply mvs0_one, mv_brk. rewrite sc_sl_done_note. assumption.
-  - apply mvs_after_frame; [assumption | apply W3; intros; discriminate].
+    eapply mvs0_trans; [apply mvs0_one, mv_brk; rewrite sc_sl_done_note; assumption|].
+    apply mvs0_one, mv_post; [reflexivity | apply quiet_note_brk; assumption].
+  - assert (L3 : lite c c3) by (apply L; exact I).
+    assert (Hd3 : sc_sl_done c3 = false) by (rewrite (lite_sl_done _ _ _ _ L3); assumption).
+    eapply mvs0_trans; [apply mvs0_lite; eassumption|].
+    apply mvs_after_frame; [assumption | apply (W3 L3); [apply sloc_refl | intro Qs; exact (HQf Qs eq_refl)]].
 Qed.
 
 (* the HEADERS prelude, then the frame *)
@@ -756,7 +679,7 @@ Proof.
     - (* SETTINGS *)
       set (c0 := if sf_set_hastable fr then upd_enc c (enc_set_max (sc_enc c) (sf_set_table fr)) else c).
       assert (L0 : lite c c0) by (subst c0; destruct (sf_set_hastable fr); [apply lite_upd_enc | apply lite_refl]).
-      assert (Hd0 : sc_sl_done c0 = false) by (rewrite (lite_sl_done _ _ _ L0); assumption).
+      assert (Hd0 : sc_sl_done c0 = false) by (rewrite (lite_sl_done _ _ _ _ L0); assumption).
       eapply mvs0_trans; [apply mvs0_lite; eassumption|].
       destruct (sf_set_haswin fr).
       + cbv zeta.
@@ -768,16 +691,16 @@ Proof.
         destruct BS as (lq & E & F2 & FQ). cbn [fst app] in E. subst lB.
         set (c1 := upd_initWin c0 (signed 32 (sf_set_win fr))) in *.
         assert (L1 : lite c0 c1) by apply lite_upd_initWin.
-        assert (Hd1 : sc_sl_done c1 = false) by reflexivity || (rewrite (lite_sl_done _ _ _ L1); assumption).
+        assert (Hd1 : sc_sl_done c1 = false) by reflexivity || (rewrite (lite_sl_done _ _ _ _ L1); assumption).
         eapply mvs0_trans; [apply mvs0_lite; eassumption|].
         eapply mvs0_trans; [apply mvs0_one, (mv_strms c1 lq); assumption|].
         destruct over.
         * eapply mvs0_trans; [apply mvs0_one, (mv_goaway _ 0 c_FlowControlError); [rewrite sc_sl_done_upd_strms; assumption | in_codes]|].
           apply mvs0_one, mv_brk. rewrite sc_sl_done_write_goaway, sc_sl_done_upd_strms. assumption.
         * cbn [cont fst].
-          eapply mvs0_trans; [apply mvs0_lite; [|apply (lite_emit _ (upd_strms c1 lq) OSettingsAck I)]; rewrite sc_sl_done_upd_strms; assumption|].
+          eapply mvs0_trans; [apply mvs0_lite; [|apply (lite_emit _ cfg (upd_strms c1 lq) OSettingsAck I)]; rewrite sc_sl_done_upd_strms; assumption|].
           apply mvs_flush_streams. rewrite sc_sl_done_emit, sc_sl_done_upd_strms. assumption.
-      + cbn [cont fst]. apply mvs0_lite; [assumption | apply (lite_emit _ c0 OSettingsAck I Hd0)].
+      + cbn [cont fst]. apply mvs0_lite; [assumption | apply (lite_emit _ cfg c0 OSettingsAck I Hd0)].
     - (* WINDOW_UPDATE *)
       eapply mvs0_trans; [apply mvs0_lite; [assumption | apply lite_upd_clientWindow]|].
       destruct (_ <? _)%Z.
@@ -785,7 +708,7 @@ Proof.
         apply mvs0_one, mv_brk. rewrite sc_sl_done_write_goaway. assumption.
       + cbn [cont fst]. apply mvs_flush_streams. assumption. }
   destruct (_ && _ && _)%bool.
-  { apply mvs_discard_or_break; [assumption | apply lite_discard_header_block | apply discard_header_block_err]. }
+  { apply mvs_discard_or_break; [assumption | apply lite_discard_header_block | apply quiet_discard_header_block | apply discard_header_block_err]. }
   cbv zeta.
   assert (GA : forall sid code, In code sl_codes -> mvs [] c (fst (cont (write_goaway c sid code)))).
   { intros. cbn [cont fst]. apply mvs0_one, mv_goaway; assumption. }
@@ -806,7 +729,7 @@ Proof.
     - destruct (match ring_find c (sf_sid fr) with Some b => b | None => false end); [|apply GA; in_codes].
       cbn [cont fst]. apply mvs0_lite; [assumption | apply lite_credit_conn_window; assumption].
     - destruct (match ring_find c (sf_sid fr) with Some b => b | None => false end); [|apply GA; in_codes].
-      apply mvs_discard_or_break; [assumption | apply lite_discard_header_block | apply discard_header_block_err]. }
+      apply mvs_discard_or_break; [assumption | apply lite_discard_header_block | apply quiet_discard_header_block | apply discard_header_block_err]. }
   destruct (fkind_eqb (sf_kind fr) KPriority) eqn:KP.
   { destruct (sf_dep fr =? sf_sid fr); cbn [cont fst]; [|constructor]. apply mvs0_lite; [assumption | apply lite_write_reset; assumption]. }
   destruct (fkind_eqb (sf_kind fr) KHeaders) eqn:KH; cbn [andb].
@@ -893,10 +816,10 @@ Proof.
   right. apply negb_false_iff in HR.
   destruct (strms_search_In _ _ _ SS) as [_ Es].
   set (s1 := set_flags s (st_responded s) false (st_abandoned s)).
-  pose proof (lite_finish_request _ enc_field c s1 r Hd) as L.
+  pose proof (lite_finish_request _ enc_field cfg c s1 r Hd) as L.
   destruct (sloc_finish_request c s1 r) as [S HQ].
   destruct (finish_request enc_field c s1 r) as [[c1 s2] fin]. cbn [fst snd] in *.
-  assert (Hd1 : sc_sl_done c1 = false) by (rewrite (lite_sl_done _ _ _ L); assumption).
+  assert (Hd1 : sc_sl_done c1 = false) by (rewrite (lite_sl_done _ _ _ _ L); assumption).
   destruct S as (Si & So & Sr & Sp). cbn [s1 set_flags st_id st_orig st_handlerRunning st_responded] in Si, So, Sr, Sp.
   assert (RET : forall x, st_id x = st_id s2 -> st_orig x = st_orig s2 -> st_handlerRunning x = st_handlerRunning s2 ->
                           (st_responded s2 = true -> st_responded x = true) -> (Q s2 -> Q x) ->
@@ -909,8 +832,8 @@ Proof.
   - set (x := set_state s2 SClosed).
     exists (put c1 x). split; [apply (RET x eq_refl eq_refl eq_refl (fun h => h) (HQ_closed s2))|].
     eapply mvs0_trans.
-    + apply mvs0_one. apply mv_close with (old := x) (x := x); [rewrite sc_sl_done_put; assumption | | apply sloc_refl].
-      rewrite sc_strms_put. eapply search_put_same. rewrite (lite_strms _ _ _ L).
+    + apply mvs0_one. apply mv_close with (old := x) (x := x); [rewrite sc_sl_done_put; assumption | | apply sloc_refl | auto].
+      rewrite sc_strms_put. eapply search_put_same. rewrite (lite_strms _ _ _ _ L).
       change (st_id x) with (st_id s2). rewrite Si, Es. exact SS.
     + apply mvs_brk_if. rewrite sc_sl_done_close_stream, sc_sl_done_put. assumption.
   - exists (put c1 s2). split; [apply (RET s2 eq_refl eq_refl eq_refl (fun h => h) (fun h => h))|].
